@@ -193,7 +193,7 @@ def gen(ctx, size, long_msgs=False):
                 # must still refuse
                 longc = (ctxb or b'') + vals.rb(rng, 256)
                 ctx.add('sig.verifyph', Ab.hex(), hx(msg), hx(longc), sig.hex(), expect=['err', 'err', 'err'], cls='reject:ctx-wrap',
-                        allow_panic=True)
+                        allow_panic=True, info='nondet')     # (debug builds assert, release builds answer: not comparable)
             # hazmat prehashed with chosen 64-byte prehash
             if rng.random() < 0.3:
                 ph2 = vals.rb(rng, 64)
